@@ -2,7 +2,7 @@
 import json
 from . import common as C
 
-HEADER = 'From WM Require Import Base.Prelude Simple.Model Simple.Monitor Simple.Throttle Corr.C19.\n'
+HEADER = 'From WM Require Import Base.Prelude Simple.Model Simple.Monitor Simple.Throttle Simple.Deadline Corr.C19.\n'
 ST = ['Unsettled', 'Acked', 'Nacked']
 
 TRUSTED_BASE = [
@@ -19,6 +19,7 @@ ASSUMPTIONS = [
     'DelayOnError schedule theorem: 0 <= InitialInterval <= MaxInterval, Multiplier = num/den >= 1; the closed form min(Initial*m^(k-1), Max) is proved where the products are whole nanoseconds, otherwise the per-step law (multiply, round down to a whole ns, cap) and the upper bound',
     'Throttle rate is a theorem over the ticker clock model; on the implementation the same spacing predicate is evaluated per worker on wall-clock handler start times with one period of slack, and the window bound of C19_throttle_window on the whole run (lower bounds only, sound under any scheduling delay)',
     'chains with more than one Retry are compared with the model but not judged by the acceptor',
+    'deadline lower bound: theorem over the clock model Simple/Deadline.v (delays >= 0, timers never early); on the implementation block_ok is evaluated on wall-clock Done() times with 1 ms slack (lower bound only)',
 ]
 
 def N(n): return C.coq_N(n)
@@ -89,7 +90,7 @@ def event(e):
 
 def case_term(c):
     init = c['init']
-    m0 = '(MSt %s [] %s %s)' % (meta(init['meta']), C.coq_bool(init['done']), ST[init['settle']])
+    m0 = '(MSt %s [] %s %s %s)' % (meta(init['meta']), C.coq_bool(init['done']), ST[init['settle']], 'None' if init['dl'] is None else '(Some %s)' % Z(init['dl']))
     script = lst('(Call %s %s)' % (lst(action(a) for a in s['pre']), outcome(s['res'])) for s in c['script'])
     invs = lst('(Inv %s %s %s)' % (lst(event(e) for e in i['trace']), outcome(i['res']), vstate(i['after'])) for i in c['invs'])
     return '(C19 %s %s %s %s)' % (lst(mw(m) for m in c['mws']), script, m0, invs)
@@ -141,6 +142,8 @@ def run_once(ctx, res, binary, seed, n, thr, witness, tag):
         for k in set(ks): res.count('mw=%s' % k)
         if 'retry' in ks and len(ks) > 1: res.count('retry_composed')
         res.count('in_flight=%d' % c['flight'])
+        if c['init']['dl'] is not None: res.count('arrives_with_deadline')
+        if c['init']['done']: res.count('arrives_with_dead_context')
         res.count('invocations=%d' % len(c['invs']))
         for s in c['script']:
             res.count('outcome=%s' % s['res']['k'])
@@ -194,6 +197,31 @@ def run_once(ctx, res, binary, seed, n, thr, witness, tag):
             res.violations.append(dict(signature='C19/throttle-rate',
                 what='handler starts through one Throttle value are closer together than the configured rate allows (n starts in a window => n-2 periods fit; per worker k starts in between => k-1 periods apart)',
                 case=ths[ti]))
+    # a deadline visible during the call: handlers blocking on Done() under small Timeouts (wall-clock LOWER bounds only)
+    dls = data.get('deadline') or []
+    if dls:
+        terms = []; models = []
+        for di, d in enumerate(dls):
+            d['mws'] = d['mws'] or []; d['dones'] = d['dones'] or []
+            terms.append('(DL %s %s %s %d)' % (Z(d['dmin']), Z(1000000), lst(Z(x) for x in d['dones']), d['want']))
+            chain = lst(('(Some %s)' % Z(m['d'])) if m['k'] == 'timeout' else 'None' for m in d['mws'] if m['k'] != 'retry')
+            models.append(('R_dlm%d' % di, 'dl_model_ok %s %d %s' % (chain, d['want'], Z(d['dmin']))))
+            res.evaluations += 1
+            res.count('deadline_chain=%s' % chain_name(d)); res.count('deadline_attempts=%d' % d['want'])
+            res.nontrivial.add(('deadline', tuple(m['k'] for m in d['mws']), d['dmin'], d['want']))
+        r = C.coq_eval(pid, 'dl_%s' % tag, HEADER + 'Definition cases : list dl_case := %s.\n' % lst(terms), [('R_dl', 'dl_violations cases')] + models)
+        for di, d in enumerate(dls):
+            why = []
+            if di in r['R_dl']: why.append('done-before-the-timeout-or-wrong-attempt-count')
+            if d['never_done']: why.append('done-never-fired')
+            if not all(d['deadline_ok'] or [False]): why.append('no-deadline-visible')
+            if not all(d['err_deadline'] or [False]): why.append('err-not-deadline-exceeded')
+            if not d['restored']: why.append('context-not-restored-after-call')
+            if why:
+                res.violations.append(dict(signature='C19/deadline:' + '+'.join(why),
+                    what='chain %s around a handler that blocks on msg.Context().Done(): %s' % (chain_name(d), ', '.join(why)), case=d))
+            if not r['R_dlm%d' % di]:
+                res.mismatches.append(dict(kind='Simple/Deadline.v attempts: the model\'s own times are rejected by block_ok', case=d))
     return cases
 
 def run(ctx):
@@ -206,7 +234,7 @@ def run(ctx):
     res.rule = ('random chains of 0..3 real middlewares (Timeout, CorrelationID, Recoverer, IgnoreErrors, InstantAck, Throttle, closed CircuitBreaker, DelayOnError, real Retry with at most one per chain) '
                 'built once per group and shared by 1/2/4 messages in flight together, around a scripted handler (returns 0..3 fresh messages and/or the consumed one, with/without own correlation id; '
                 'fails with plain / pkg-errors-wrapped / %w-wrapped errors; panics with string / error / nil; Acks, Nacks, sets metadata or cancels the base context first), invoked 1..8 times on the same '
-                'message object; a fifth of the groups are failure runs through DelayOnError with multipliers 1, 5/4, 3/2, 7/4, 2, 9/4, 3; plus 5 runs of 12 messages through one Throttle value with 1..4 workers, the messages carrying live, already cancelled, deadline-passed, cancelled-while-waiting and deadline-expiring-while-waiting contexts (all live / all ended / interleaved). '
+                'message object; a fifth of the groups are failure runs through DelayOnError with multipliers 1, 5/4, 3/2, 7/4, 2, 9/4, 3; plus 6 chains with small Timeouts (8..40 ms, alone, stacked, under the real Retry) around a handler that blocks on Done() (lower bounds, Err(), Deadline(), context restored alive afterwards); plus 5 runs of 12 messages through one Throttle value with 1..4 workers, the messages carrying live, already cancelled, deadline-passed, cancelled-while-waiting and deadline-expiring-while-waiting contexts (all live / all ended / interleaved). '
                 'non-trivial = a non-empty chain or a handler that does more than return nothing; distinct by (chain kinds in order, outcome kinds, panic value kinds, number of invocations, concurrent or not).')
     return res
 
